@@ -92,14 +92,18 @@ theorem wna_sample_cov {n N : Nat} (S Q : Mat ℝ n n) (z : Mat ℝ n N)
   intro ι s w zs hE
   rw [sample_second_moment, hE, Matrix.mul_one, hS]
 
-/-- The contract `S Sᵀ = Q` follows for the expression the code uses, `S = Pᵀ L √D`, from the
-    contract of the decomposition it calls (`Q = Pᵀ L D Lᵀ P` with `D ≥ 0`, Eigen's `LDLT` on a
-    positive semi-definite matrix). -/
-theorem wna_sqrt_contract {n : Nat} (P L Q : Mat ℝ n n) (d : Vec ℝ n) (hd : ∀ i, 0 ≤ d i)
-    (hQ : (toM P)ᵀ * toM L * Matrix.diagonal (fun i => d i) * (toM L)ᵀ * toM P = toM Q) :
-    toM (ldltSqrt P L d) = (toM P)ᵀ * toM L * Matrix.diagonal (fun i => Real.sqrt (d i)) ∧
-    toM (ldltSqrt P L d) * (toM (ldltSqrt P L d))ᵀ = toM Q :=
-  ⟨toM_ldltSqrt P L d, ldltSqrt_contract P L Q d hd hQ⟩
+/-- The contract `S Sᵀ = Q` follows for the expression the code uses, `S = Pᵀ L √(max(D, 0))`, from
+    the contract of the decomposition it calls (`Q = Pᵀ L D Lᵀ P` with `D ≥ 0`, Eigen's `LDLT` on a
+    positive semi-definite matrix — zero pivots, i.e. a singular covariance, included).  Whatever the
+    pivots, also rounding-negative ones, `S Sᵀ = Pᵀ L max(D, 0) Lᵀ P`: the square root is always real. -/
+theorem wna_sqrt_contract {n : Nat} (P L Q : Mat ℝ n n) (d : Vec ℝ n) :
+    toM (ldltSqrt P L d) = (toM P)ᵀ * toM L * Matrix.diagonal (fun i => Real.sqrt (max (d i) 0)) ∧
+    toM (ldltSqrt P L d) * (toM (ldltSqrt P L d))ᵀ
+      = (toM P)ᵀ * toM L * Matrix.diagonal (fun i => max (d i) 0) * (toM L)ᵀ * toM P ∧
+    ((∀ i, 0 ≤ d i) →
+      (toM P)ᵀ * toM L * Matrix.diagonal (fun i => d i) * (toM L)ᵀ * toM P = toM Q →
+      toM (ldltSqrt P L d) * (toM (ldltSqrt P L d))ᵀ = toM Q) :=
+  ⟨toM_ldltSqrt P L d, ldltSqrt_clamped P L d, fun hd hQ => ldltSqrt_contract P L Q d hd hQ⟩
 
 /-- Reproducibility: a sample is a function of the factor and of the window of the stream the call
     reads; consecutive calls read consecutive windows (column-major fill). -/
@@ -458,6 +462,15 @@ theorem sensor_freeze_history {n m : Nat} (H : Mat ℝ m n) (SR : Mat ℝ m m) (
 theorem plumbing_noop (p : String) (cfg : Dim × ℝ × ℝ) (t : ℝ) (a b : WnaObj ℝ) :
     defaultSetProperty p = false ∧ wnaSetSamplingTime cfg t = (true, cfg) ∧
     a.moveFrom = a ∧ WnaObj.moveAssign b a = a := ⟨rfl, rfl, rfl, rfl⟩
+
+/-- A moved `LTIStateModel` is the configured source: besides `F`, `Q` it keeps the skip flag and
+    the attached exogenous model, so `propagate` on the target takes the branch it took on the source. -/
+theorem lti_move_keeps_configuration {n N : Nat} (a b : LtiObj) (F : Mat ℝ n n) (exo : Option (Exo ℝ n N))
+    (cur out : Mat ℝ n N) :
+    a.moveFrom = a ∧ LtiObj.moveAssign b a = a ∧
+    linPropagate F a.moveFrom.skipping exo cur out = linPropagate F a.skipping exo cur out ∧
+    linPropagate F (LtiObj.moveAssign b a).skipping exo cur out = linPropagate F a.skipping exo cur out :=
+  ⟨rfl, rfl, rfl, rfl⟩
 
 /-! ## Hypotheses that cannot be dropped -/
 
